@@ -435,3 +435,27 @@ Proof.
     destruct (_ <? _); try discriminate.
     destruct (distribute _ _ _ _) as [[[? ?] ?]| |]; discriminate.
 Qed.
+
+(** * A concrete history (non-vacuity of the hypotheses) *)
+Definition z : cusage := {| cRpc := 0; cStorage := 0; cIngress := 0; cEgress := 0; cRegR := 0; cRegW := 0; cFunding := 0; cRisked := 0 |}.
+Definition c11_demo : list op :=
+  [AddC1 1 z; AddC1 2 z; AddC2 1 z; Fund1 1 0 1 5; Fund1 2 0 1 5;
+   Fund2 1 [(1, 4)] {| rRpc := 0; rStorage := 0; rEgress := 0; rIngress := 0; rFunding := 4; rRisked := 0 |};
+   Debit1 0 {| qStorage := 2; qIngress := 0; qEgress := 0; qRegR := 3; qRegW := 2; qRpc := 0 |}].
+
+Lemma c11_demo_ok :
+  Forall wf_op c11_demo /\ atts c11_demo < two128 /\ Forall (no_v2_deposit 0) c11_demo /\
+  crev (con1 (runs init c11_demo)) = 9 /\
+  option_map cFunding (alookup 1 (con1 (runs init c11_demo))) = Some 0 /\
+  option_map cFunding (alookup 2 (con1 (runs init c11_demo))) = Some 3 /\
+  option_map cRegW (alookup 2 (con1 (runs init c11_demo))) = Some 2 /\
+  inner 0 (fund1 (runs init c11_demo)) = [(2, 3)] /\ getv 0 (accts (runs init c11_demo)) = 3.
+Proof.
+  split.
+  { unfold c11_demo. repeat (apply Forall_cons; [cbn [wf_op z cFunding rFunding asum]; try reflexivity; try exact I|]); try apply Forall_nil.
+    unfold wfq; cbn [qStorage qIngress qEgress qRegR qRegW qRpc]. unfold two128. repeat split; reflexivity. }
+  split; [vm_compute; reflexivity|].
+  split.
+  { unfold c11_demo. repeat (apply Forall_cons; [cbn [no_v2_deposit amt_for]; try reflexivity; try exact I|]). apply Forall_nil. }
+  repeat split; vm_compute; reflexivity.
+Qed.
